@@ -7,6 +7,7 @@ import MosnVerif.Lemmas.PoolWinLedger
 import MosnVerif.Lemmas.PoolWinWitness
 import MosnVerif.Lemmas.PoolMxWin  -- (mux6 section at the end of the file)
 import MosnVerif.Lemmas.GaugeFlags  -- (c10r7 section at the end of the file)
+import MosnVerif.Model.PoolPlace  -- (pool9 section at the end of the file)
 /-!
 # C10 — circuit-breaker and active-gauge accounting is conserved (property theorems only)
 
@@ -688,3 +689,87 @@ theorem pool_conditional_decrement_rejected :
 end C10r7
 end MosnVerif.Props.C10
 /-! (end of the c10r7 section) -/
+
+/-! ### pool9 — `place` and `listen` of NewStream as separate steps: HTTP/1, ping-pong and binding pools
+
+`Model/PoolPlace.{h1,pp,bind}Progs`: the REGENERATED NewStream programs of the three pools (`Gen/PoolPlace`, source order;
+the stream is created = `place`, the pool's listener is added = `listen`, the three takes, the closed-connection test =
+`undoChk`) run in the interleaving model `Model/PoolMxWin`: one statement per step, and between ANY two statements any
+other label — in particular `netClose c` between `place` and `listen`, which (where `placeVisible`, regenerated) resets the
+new stream before the pool listens to it.  The theorems are the generic `request_ledger_exact_steps` (every program set of
+the decidable class `ledgerOk`: where the stream is resettable from its creation, `listen` is followed by exactly one
+closed-connection test) instantiated with the regenerated programs, which are DECIDED to be in the class on every run. -/
+namespace MosnVerif.Props.C10
+section Pool9
+open MosnVerif.Lemmas.PoolMxWin
+open MosnVerif.Model.PoolMxWin (Progs initWith run drain step stepTask)
+open MosnVerif.Model.PoolPlace
+
+theorem place_progs_ledgerOk : ledgerOk h1Progs = true ∧ ledgerOk ppProgs = true ∧ ledgerOk bindProgs = true := by decide
+
+/-- **pp_place_listen_ledger_exact_steps**: ping-pong pool, after EVERY label of every interleaving (a connection close
+between the creation of the stream and the pool's listener included), every number of connections and every limit -/
+theorem pp_place_listen_ledger_exact_steps (nSlots maxReq : Nat) (ls : List MosnVerif.Model.PoolMxWin.Label) :
+    Ledger maxReq (run (initWith .mux nSlots maxReq ppProgs) ls) :=
+  request_ledger_exact_steps .mux nSlots maxReq _ place_progs_ledgerOk.2.1 ls
+
+/-- **bind_place_listen_ledger_exact_steps**: the same for the binding pool (dial inside NewStream under the pool's mutex) -/
+theorem bind_place_listen_ledger_exact_steps (maxReq : Nat) (ls : List MosnVerif.Model.PoolMxWin.Label) :
+    Ledger maxReq (run (initWith .h2 1 maxReq bindProgs) ls) :=
+  request_ledger_exact_steps .h2 1 maxReq _ place_progs_ledgerOk.2.2 ls
+
+/-- **h1_place_listen_ledger_exact_steps**: the same for the HTTP/1 pool, whose NewStream has NO closed-connection test:
+it needs none because `h1PlaceVisible = false` (regenerated from pkg/stream/http/stream.go: a connection event resets the
+stream only after its request was sent) — a close between `place` and `listen` leaves the stream in flight, it ends when
+its request cannot be sent, heard by the pool -/
+theorem h1_place_listen_ledger_exact_steps (nSlots maxReq : Nat) (ls : List MosnVerif.Model.PoolMxWin.Label) :
+    Ledger maxReq (run (initWith .mux nSlots maxReq h1Progs) ls) :=
+  request_ledger_exact_steps .mux nSlots maxReq _ place_progs_ledgerOk.1 ls
+
+/-- quiescent ⇒ zero for the three pools -/
+theorem place_quiescent_zero (pg : Progs) (h : pg = h1Progs ∨ pg = ppProgs ∨ pg = bindProgs) (k : MosnVerif.Model.PoolMxWin.Kind)
+    (nSlots maxReq : Nat) (ls : List MosnVerif.Model.PoolMxWin.Label) (q : (run (initWith k nSlots maxReq pg) ls).quiescent) :
+    let s := run (initWith k nSlots maxReq pg) ls
+    s.led.rqHost = 0 ∧ s.led.rqCluster = 0 ∧ s.led.reqCur = if maxReq = 0 then 0 else (s.led.ext : Int) := by
+  have hok : ledgerOk pg = true := by
+    rcases h with h | h | h <;> subst h
+    · exact place_progs_ledgerOk.1
+    · exact place_progs_ledgerOk.2.1
+    · exact place_progs_ledgerOk.2.2
+  exact ledger_quiescent maxReq _ (request_ledger_exact_steps k nSlots maxReq _ hok ls) q
+
+/-- why the HTTP/1 pool is not affected, from the regenerated facts: the stream is not resettable before its request is
+sent, its NewStream has no closed-connection test and is in the class all the same; were the stream resettable from its
+creation (`placeVisible := true`) the same program would be OUTSIDE the class -/
+theorem h1_not_affected :
+    MosnVerif.Gen.PoolPlace.h1PlaceVisible = false ∧ h1Progs.nsPost.contains .undoChk = false ∧
+    ledgerOk h1Progs = true ∧ ledgerOk { h1Progs with placeVisible := true } = false := by decide
+
+/-- the ping-pong / binding NewStream as it was before the fixes: listen, takes, no closed-connection test -/
+def ppUnfixed : Progs := { ppProgs with nsPost := unfixedPost }
+
+/-- the schedule of the harness operation `Y`: a NewStream runs up to `listen`, the connection is closed, everything
+runs to its end -/
+def yieldSched (pg : Progs) (maxReq : Nat) : MosnVerif.Model.PoolMxWin.State :=
+  let s0 := run (initWith .mux 1 maxReq pg) [.connect 0 true, .newStream 0 true]
+  -- breaker test, client, refusal test, place: four statements; then the close
+  let s1 := stepTask (stepTask (stepTask (stepTask s0 0) 0) 0) 0
+  drain 64 (step s1 (.netClose 0))
+
+/-- negation witness = the unfixed order: outside the class; the close between `place` and `listen` leaves the pool
+quiescent with NO request in flight and `Requests().Cur()` = 1, both gauges 1 for ever (with max_requests = 1 every later
+request overflows) -/
+theorem unfixed_order_leaks :
+    ledgerOk ppUnfixed = false ∧ mxView (yieldSched ppUnfixed 1) = (1, 1, 1, 0, true) := by decide
+
+-- the same schedule on the pools as they are: everything given back, the request refused
+example : mxView (yieldSched ppProgs 1) = (0, 0, 0, 0, true) ∧ (yieldSched ppProgs 1).bk.lastRes = .connFail := by decide
+-- HTTP/1: the stream stays in flight on the closed connection (it ends at send): counted, not leaked
+example : mxView (yieldSched h1Progs 1) = (1, 1, 1, 1, true) ∧ (yieldSched h1Progs 1).led.streams = [0] := by decide
+-- non-vacuity of the mid-way claim: after `place`, before `listen`, with the connection closed
+example : (fun s : MosnVerif.Model.PoolMxWin.State => (s.led.reqCur, s.led.streams.length, s.led.deaf.length))
+    (step (stepTask (stepTask (stepTask (stepTask (run (initWith .mux 1 1 ppProgs) [.connect 0 true, .newStream 0 true]) 0) 0) 0) 0) (.netClose 0))
+    = (0, 0, 0) := by decide
+
+end Pool9
+end MosnVerif.Props.C10
